@@ -86,10 +86,23 @@ def main():
             for v in eng2.violations:
                 if (v.rule, v.key) not in set(k1):
                     v.msg = '[release profile only] ' + v.msg; eng.violations.append(v)
+        if getattr(mod, 'PROBES', None):
+            import probes, pickle as _pk
+            spath = os.path.join(CACHE, 'summ-%s.pkl' % meta['hash'])
+            res = probes.run_probes(mod, lambda: _pk.load(open(spath, 'rb')), engine, tier)
+            extra['probes'] = res
+            for r in res:
+                if r['mutated_sites'] > 0 and r['violations'] == 0:
+                    eng.fail(prop, 'probe-vacuous', r['probe'], 'sensitivity probe %s perturbed %d sites of the extracted facts but no rule of this property reported it (the rule is vacuous)' % (r['probe'], r['mutated_sites']))
+                elif r['mutated_sites'] == 0:
+                    eng.fail(prop, 'probe-unbound', r['probe'], 'sensitivity probe %s found nothing to perturb (its anchor no longer exists)' % r['probe'])
+                else:
+                    eng.ob(True, prop, 'probe', r['probe'], '')
         if hasattr(mod, 'thorough_extra'):
             extra.update(mod.thorough_extra(eng, summ) or {})
     known = engine.load_known()
-    os.makedirs(os.path.join(VERIF, 'evidence', 'violations'), exist_ok=True)
+    EVD = os.environ.get('ATSA_EVIDENCE_DIR') or os.path.join(VERIF, 'evidence')
+    os.makedirs(os.path.join(EVD, 'violations'), exist_ok=True)
     real = []; seen = set(); known_hit = []
     for v in eng.violations:
         kk = (v.prop, v.rule + ':' + v.key)
@@ -102,7 +115,7 @@ def main():
     for v in real:
         fn = hashlib.sha1((v.rule + ':' + v.key).encode()).hexdigest()[:12]
         rp = os.path.join('evidence', 'violations', '%s-%s.json' % (prop, fn))
-        with open(os.path.join(VERIF, rp), 'w') as f:
+        with open(os.path.join(EVD, 'violations', '%s-%s.json' % (prop, fn)), 'w') as f:
             json.dump({'property': prop, 'rule': v.rule, 'key': v.key, 'message': v.msg, 'where': v.where, 'detail': v.detail}, f, indent=1, default=str)
         print('%s: rule %s: %s' % (v.where or '-', v.rule, v.msg))
         for d in (v.detail or [])[:40]: print('      ' + str(d))
@@ -128,7 +141,7 @@ def main():
     cov.update(extra)
     ev = {'property_id': prop, 'tier': tier, 'seed': seed, 'level': 'other', 'coverage': cov,
           'assumptions': info.get('assumptions', []), 'wall_s': round(wall, 2), 'violations': len(real)}
-    with open(os.path.join(VERIF, 'evidence', '%s.json' % prop), 'w') as f: json.dump(ev, f, indent=1, default=str)
+    with open(os.path.join(EVD, '%s.json' % prop), 'w') as f: json.dump(ev, f, indent=1, default=str)
     print('%s tier=%s obligations=%d discharged=%d violations=%d known=%d wall=%.1fs (extraction %s)' % (
         prop, tier, eng.obligations, eng.discharged, len(real), len(known_hit), wall, 'cached' if meta['cached'] else 'fresh'))
     if summ.get('budget_hit'):
